@@ -11,7 +11,7 @@ CAUGHT = {
  "C03/mutant2": [("C03", True), ("C04", True)],
  "C04/mutant1": [("C04", True)],
  "C04/mutant2": [("C17", True), ("C04", True)],
- "C05/mutant1": [("C07", True)],
+ "C05/mutant1": [("C05", True), ("C07", True)],
  "C05/mutant2": [("C05", False)],
  "C06/mutant1": [("C06", True)],
  "C06/mutant2": [("C06", True)],
@@ -23,6 +23,14 @@ CAUGHT = {
  "C09/mutant2": [("C09", True), ("C04", True)],
  "C10/mutant1": [("C20", True)],
  "C10/mutant2": [("C10", True)],
+ "C11/mutant1": [("C11", True)],
+ "C11/mutant2": [("C11", True), ("C05", True)],
+ "C13/mutant1": [("C13", True), ("C05", False)],
+ "C13/mutant2": [("C13", True)],
+ "C15/mutant1": [("C15", True)],
+ "C15/mutant2": [("C15", False)],
+ "C17/mutant1": [("C17", True)],
+ "C17/mutant2": [("C17", True)],
  "C12/mutant1": [("C12", True)],
  "C12/mutant2": [("C12", True)],
  "C12/extra_mutant3": [("C12", True)],
@@ -41,15 +49,16 @@ NOTES = {
  "C02/mutant2": "not reported by C02 (its harness installs the two subkeys directly): key-file digestion is C20's whole_file_keying, which reports it with a 1025-byte key",
  "C03/mutant1": "needs two concurrent clients: not visible to C03's sequential streams; reported by C11 (shared-variable extraction flags the new static, and the forced-schedule stream shows a credential carrying another client's uid)",
  "C04/mutant2": "first seen only by C17; C04 was then extended with a stream through the real gids_is_member and now reports it too",
- "C05/mutant1": "not reported by C05 (its histories do not purge inside the last valid second); reported by C07 (purge_exact theorem and stream)",
  "C05/mutant2": "quick tier: generated lock certificate / correspondence breaks, no failing input (no thread race is forced in the quick tier); thorough tier runs 16-thread insert races",
  "C08/mutant2": "first seen only by C14 (m_msg_recv return code); C08 was then extended with over-limit requests that must be refused at once (timing gate) and now reports it too",
  "C10/mutant1": "not reported by C10 (subkeys installed directly); reported by C20",
  "C20/mutant1": "first seen as a harness link failure (fd_read_n); the C20 sub-harness now links fd.c and reports a concrete key file",
+ "C15/mutant2": "needs the lock holder to die between the starter's F_SETLK and F_GETLK: reported through the generated-program theorem lock_failure_is_fatal only (no failing schedule is driven on the binary)",
+ "C17/mutant1": "first reported by the theorems only; the generated databases now contain uids in one hash slot that are >= 2^31 apart and the stream gives a failing (uid, gid) query",
  "C01/mutant2": "C01 reports it only as a broken dependency (C06 theorem file); C06 gives the failing tuple",
 }
 confirm = {}
-for f in ("/tmp/wt/confirm.log", "/tmp/wt/confirm2.log"):
+for f in ("/tmp/wt/confirm.log", "/tmp/wt/confirm2.log", "/tmp/wt/confirm3.log", "/tmp/wt/confirm4.log"):
     if os.path.exists(f):
         for l in open(f):
             m = re.match(r"/tmp/wt/out_(\S+): (suite .*)", l)
